@@ -110,7 +110,7 @@ static std::string one_line(std::string s) { for (auto& c : s) if (c == '\n' || 
 static int worker(Harness& h, uint64_t seed, long start, long stride, long count, double secs, bool thorough, long detcheck)
 {
 	sim::on_fatal = fatal_hook;
-	double t0 = wall(); long runs = 0, nontriv = 0; std::map<std::string, int64_t> agg; int64_t sim_ns = 0; uint64_t steps = 0, preempt = 0;
+	double t0 = wall(); long runs = 0, nontriv = 0; std::map<std::string, int64_t> agg; double sim_s = 0; uint64_t steps = 0, preempt = 0;
 	int samples = 0;
 	for (long k = 0; k < count; ++k)
 	{
@@ -124,7 +124,7 @@ static int worker(Harness& h, uint64_t seed, long start, long stride, long count
 			Result r2 = h.run(p, false);
 			if (r2.trace_hash != r.trace_hash || r2.v.size() != r.v.size()) { printf("NONDET %ld %016llx %016llx\n", idx, (unsigned long long)r.trace_hash, (unsigned long long)r2.trace_hash); fflush(stdout); }
 		}
-		++runs; if (r.nontrivial) ++nontriv; sim_ns += r.sim_ns; steps += r.steps; preempt += r.preempt;
+		++runs; if (r.nontrivial) ++nontriv; sim_s += r.sim_ns / 1e9; steps += r.steps; preempt += r.preempt;
 		for (auto& kv : r.counters) agg[kv.first] += kv.second;
 		printf("R %ld %016llx %016llx %016llx %d %llu %lld %zu\n", idx, (unsigned long long)p.hash(), (unsigned long long)r.trace_hash, (unsigned long long)r.dec_hash,
 			r.nontrivial ? 1 : 0, (unsigned long long)r.steps, (long long)(r.sim_ns / 1000000), r.v.size());
@@ -133,7 +133,7 @@ static int worker(Harness& h, uint64_t seed, long start, long stride, long count
 		fflush(stdout);
 	}
 	js::Val st = js::Val::obj();
-	st.set("runs", js::Val((long long)runs)).set("nontrivial", js::Val((long long)nontriv)).set("sim_ns", js::Val((long long)sim_ns))
+	st.set("runs", js::Val((long long)runs)).set("nontrivial", js::Val((long long)nontriv)).set("sim_s", js::Val(sim_s))
 	  .set("steps", js::Val((unsigned long long)steps)).set("preemptions", js::Val((unsigned long long)preempt)).set("wall_s", js::Val(wall() - t0));
 	js::Val c = js::Val::obj(); for (auto& kv : agg) c.set(kv.first, js::Val((long long)kv.second)); st.set("counters", c);
 	printf("STATS %s\n", st.dump().c_str()); fflush(stdout);
